@@ -62,6 +62,20 @@ if phase == "confirm":
     sys.exit(0)
 
 # ---- check phase
+
+
+def repo_lock():
+    """/repo is patched in place: one user at a time (mkdir is atomic)"""
+    import atexit
+    while True:
+        try:
+            os.mkdir("/tmp/repo.lock")
+            break
+        except FileExistsError:
+            time.sleep(5)
+    atexit.register(lambda: os.path.isdir("/tmp/repo.lock") and os.rmdir("/tmp/repo.lock"))
+
+repo_lock()
 res = json.load(open(f"{src}/verify.json"))
 st = subprocess.run("git -C /repo status --porcelain", shell=True, stdout=subprocess.PIPE).stdout.decode().strip()
 assert st == "", "/repo not clean: " + st
